@@ -3,7 +3,7 @@ SPECIFICATION EnumSpec
 CONSTANTS
   NDocs = 4
   PatIds = {1, 2}
-  TreeIds = {1, 2, 3, 4, 6}
+  TreeIds = {1, 3, 4, 6}
   SortIds = {1, 2, 3, 4}
   MaxFrom = 2
   MaxSize = 2
